@@ -63,6 +63,11 @@ def run(ctx, rep):
         if x['oblig'] == 'O8' and ('Call' in x['text']):
             rep.bad('R12.1', 'compiler::Compiler::' + x['method'], x['construct'], x['text'], 'src/compiler.rs', key=x['kc'])
     for x in R['violations']:
+        if x['oblig'] == 'R09.9' and 'Function' in str(x['construct']):
+            # a function declared inside a function is a variable of that activation: declaring it may not overwrite a binding of
+            # the caller's world (R09.9 read for C12)
+            rep.bad('R12.3', 'compiler::Compiler::' + x['method'], x['construct'], x['text'], 'src/compiler.rs', key=x['kc'])
+    for x in R['violations']:
         if x['oblig'] == 'R12.1':
             rep.bad('R12.1', 'compiler::Compiler::' + x['method'], x['construct'], x['text'], 'src/compiler.rs', key=x['kc'])
     # ---- VM side: Call arm ---------------------------------------------------------------------
